@@ -81,6 +81,19 @@ CHECKS = {
         note="Trusted: TLC, the replay harness. Prices restricted to powers of two for exact comparison; generic prices sampled.",
         technique="TLC model checking + exhaustive model-generated histories replayed on the real code",
         engine="tlc"),
+    "C10": dict(
+        category="model_checking",
+        text="spec/Repository.tla: abstract store, Append, and the table of read results the property prescribes (Get, GetSince per "
+             "bound, LastDate, Assets bounds). TLC checks ReadYourWrites, IdsInOrder, ReadsConsistent over all Append histories "
+             "(2 names + a never-appended one, 6 batch shapes incl. empty, out-of-order and equal dates, depth 4-5) and emits every "
+             "history with the read table after each Append; each is replayed on the real InMemoryRepository, FileSystemRepository and "
+             "SQLRepository (over a conforming in-process database/sql driver whose gate shows whether Append returns before its rows "
+             "are written), with ALL reads performed after every Append.",
+        design_ref="DESIGN.md 2.5, 5 (C10)",
+        note="Trusted: TLC, the replay harness, the fake SQL driver (harness/fakesql.go). SQL only for strictly increasing dates per "
+             "asset; Assets() order and names that only ever received empty batches are not compared.",
+        technique="TLC model checking + exhaustive model-generated histories replayed on the three real repositories",
+        engine="tlc"),
     "C14": dict(
         category="model_checking",
         text="Report() of every strategy (base, compound, decorated) x configurations x n beyond the warm-up: the network recorded "
